@@ -82,29 +82,89 @@ Fixpoint totals (rs : list resp) : N * N :=
 
 Fixpoint sum_n (l : list N) : N := match l with [] => 0 | x :: r => x + sum_n r end.
 
-(* ---- reservation schedule of BucketStore.Series (eager postings) ------------------ *)
+(* ---- reservation schedule of BucketStore.Series --------------------------------------- *)
 
-(* A block of the request = the series matched by the postings, in postings order, each
-   with its number of chunks in the requested time range (0 = none: the series is not
-   returned). blockSeriesClient.ExpandPostings reserves len(postings) series (nothing when
-   there are no postings); nextBatch reserves len(chkMetas) chunks for every series that
-   has chunks, unless the request skips chunks. All block clients share the two limiters. *)
-Definition series_reservations (blocks : list (list N)) : list N :=
-  filter (fun n => 0 <? n) (map (fun b => N.of_nat (length b)) blocks).
+(* One block of the request, as its block client sees it: whether postings were expanded
+   lazily (some matchers are left to be applied to the fetched series), and the fetched
+   postings in order, each with: does the series pass the lazy matchers (always true when
+   not lazy), and its number of chunks in the requested time range (0 = none).
+   [reqlim] is SeriesRequest.Limit (0 = none), [bsz] the store's series batch size. *)
+Record blockq := mkB { b_lazy : bool; b_entries : list (bool * N) }.
 
-Definition chunk_reservations (skip : bool) (blocks : list (list N)) : list N :=
-  if skip then [] else filter (fun k => 0 <? k) (concat blocks).
+(* the loop of nextBatch over one batch, from seriesMatched = [matched]:
+   (seriesMatched at the end, chunk reservations in order, entries appended, stopped by reqlim) *)
+Fixpoint batch_go (skip : bool) (reqlim : N) (es : list (bool * N)) (matched : N) : N * list N * N * bool :=
+  match es with
+  | [] => (matched, [], 0, false)
+  | (lm, k) :: r =>
+    if negb lm || negb (0 <? k) then batch_go skip reqlim r matched      (* continue *)
+    else
+      let m' := matched + 1 in
+      if (0 <? reqlim) && (reqlim <? m') then (m', [], 0, true)          (* hasMorePostings = false; break *)
+      else
+        let '(mf, cr, ne, st) := batch_go skip reqlim r m' in
+        (mf, (if skip then cr else k :: cr), ne + 1, st)
+  end.
 
-(* the request succeeds iff no reservation fails; reservations only accumulate *)
-Definition store_ok (slimit climit : N) (skip : bool) (blocks : list (list N)) : bool :=
-  forallb (fun b => b) (reserves (new_limiter slimit) (series_reservations blocks)) &&
-  forallb (fun b => b) (reserves (new_limiter climit) (chunk_reservations skip blocks)).
+(* postings[start:end] batches *)
+Fixpoint chunked {A} (fuel : nat) (bsz : nat) (l : list A) : list (list A) :=
+  match fuel with
+  | O => []
+  | S f => match l with
+           | [] => []
+           | _ => firstn bsz l :: chunked f bsz (skipn bsz l)
+           end
+  end.
 
-(* series / chunks a successful request sends before merging equal series of different blocks *)
-Definition returned_series (blocks : list (list N)) : N :=
-  N.of_nat (length (filter (fun k => 0 <? k) (concat blocks))).
-Definition returned_chunks (skip : bool) (blocks : list (list N)) : N :=
-  if skip then 0 else sum_n (concat blocks).
+(* successive nextBatch calls: (series reservations, chunk reservations, series returned) *)
+Fixpoint batches_go (lazy skip : bool) (reqlim : N) (bs : list (list (bool * N))) : list N * list N * N :=
+  match bs with
+  | [] => ([], [], 0)
+  | b :: r =>
+    let '(m, cr, ne, st) := batch_go skip reqlim b 0 in
+    let sres := if lazy then [m] else [] in                 (* lazy: seriesLimiter.Reserve(seriesMatched) per batch *)
+    if st then (sres, cr, ne)
+    else let '(s2, c2, n2) := batches_go lazy skip reqlim r in (sres ++ s2, cr ++ c2, ne + n2)
+  end.
+
+Definition block_run (bsz : nat) (skip : bool) (reqlim : N) (b : blockq) : list N * list N * N :=
+  match b_entries b with
+  | [] => ([], [], 0)                                       (* no postings: emptyLazyPostings, nothing reserved *)
+  | es =>
+    if b_lazy b then batches_go true skip reqlim (chunked (length es) (Nat.min bsz (length es)) es)
+    else
+      (* ExpandPostings: postings = postings[:seriesLimit] when longer; Reserve(len(postings)) *)
+      let es' := if (0 <? reqlim) && (reqlim <? N.of_nat (length es)) then firstn (N.to_nat reqlim) es else es in
+      let '(s, c, n) := batches_go false skip reqlim (chunked (length es') (Nat.min bsz (length es')) es') in
+      (N.of_nat (length es') :: s, c, n)
+  end.
+
+Fixpoint request_run (bsz : nat) (skip : bool) (reqlim : N) (blocks : list blockq) : list N * list N * N :=
+  match blocks with
+  | [] => ([], [], 0)
+  | b :: r =>
+    let '(s1, c1, n1) := block_run bsz skip reqlim b in
+    let '(s2, c2, n2) := request_run bsz skip reqlim r in
+    (s1 ++ s2, c1 ++ c2, n1 + n2)
+  end.
+
+Definition series_reservations bsz skip reqlim blocks : list N := fst (fst (request_run bsz skip reqlim blocks)).
+Definition chunk_reservations bsz skip reqlim blocks : list N := snd (fst (request_run bsz skip reqlim blocks)).
+(* series sent by the block clients (before equal series of different blocks are merged and
+   before the request's own Limit cuts the merged stream) *)
+Definition returned_series bsz skip reqlim blocks : N := snd (request_run bsz skip reqlim blocks).
+
+(* the request succeeds iff no reservation fails; all block clients share the two limiters *)
+Definition store_ok (slimit climit : N) bsz skip reqlim blocks : bool :=
+  forallb (fun b => b) (reserves (new_limiter slimit) (series_reservations bsz skip reqlim blocks)) &&
+  forallb (fun b => b) (reserves (new_limiter climit) (chunk_reservations bsz skip reqlim blocks)).
+
+(* what the blocks hold for the request: series passing all matchers with a chunk in range, and their chunks *)
+Definition wanted (b : blockq) : list N :=
+  map snd (filter (fun e : bool * N => fst e && (0 <? snd e)) (b_entries b)).
+Definition true_series (blocks : list blockq) : N := N.of_nat (length (concat (map wanted blocks))).
+Definition true_chunks (skip : bool) (blocks : list blockq) : N :=
+  if skip then 0 else sum_n (concat (map wanted blocks)).
 
 Fixpoint insert_sorted (x : N) (l : list N) : list N :=
   match l with
@@ -112,6 +172,16 @@ Fixpoint insert_sorted (x : N) (l : list N) : list N :=
   | y :: r => if x <=? y then x :: l else y :: insert_sorted x r
   end.
 Definition sort_n (l : list N) : list N := fold_right insert_sorted [] l.
+
+(* both lists sorted: every element of [a] is matched by a distinct equal element of [b] *)
+Fixpoint sub_multiset (a b : list N) : bool :=
+  match b with
+  | [] => match a with [] => true | _ => false end
+  | y :: b' => match a with
+               | [] => true
+               | x :: a' => if x =? y then sub_multiset a' b' else if y <? x then sub_multiset a b' else false
+               end
+  end.
 
 (* ---- cases --------------------------------------------------------------------- *)
 
@@ -126,20 +196,28 @@ Inductive case :=
    reader); whether Series returned nil; whether the error was ResourceExhausted; the sorted
    arguments of all Reserve calls on the series / chunks limiter; series and chunks received
    by the client; distinct series and chunks the blocks hold for the request *)
-| CStore (slimit climit : N) (skip : bool) (blocks : list (list N)) (ok exhausted : bool)
-         (sres cres : list N) (nseries nchunks true_series true_chunks : N).
+| CStore (slimit climit : N) (bsz : nat) (skip : bool) (reqlim : N) (blocks : list blockq) (ok exhausted : bool)
+         (sres cres : list N) (nseries nchunks tseries tchunks : N).
 
 Definition corr_ok (c : case) : bool :=
   match c with
   | CLimiter limit nums oks => list_eqb Bool.eqb (reserves (new_limiter limit) nums) oks
   | CServer sl cl rs fwd ok =>
     let '(n, fin) := stream (new_limiter sl) (new_limiter cl) rs in (n =? fwd) && Bool.eqb fin ok
-  | CStore sl cl skip blocks ok _ sres cres _ _ _ _ =>
-    Bool.eqb (store_ok sl cl skip blocks) ok &&
-    (* when the request ran to the end every reservation of the schedule was made, no other *)
-    (if ok then list_eqb N.eqb (sort_n (series_reservations blocks)) sres &&
-                list_eqb N.eqb (sort_n (chunk_reservations skip blocks)) cres
-     else true)
+  | CStore sl cl bsz skip reqlim blocks ok _ sres cres nseries _ _ _ =>
+    if reqlim =? 0 then
+      Bool.eqb (store_ok sl cl bsz skip reqlim blocks) ok &&
+      (* when the request ran to the end every reservation of the schedule was made, no other *)
+      (if ok then list_eqb N.eqb (sort_n (series_reservations bsz skip reqlim blocks)) sres &&
+                  list_eqb N.eqb (sort_n (chunk_reservations bsz skip reqlim blocks)) cres
+       else true)
+    else
+      (* with a request Limit the merged stream is cut and later batches may never be asked for:
+         the reservations made are some of the schedule's, the series sent at most the schedule's *)
+      (if ok then (nseries <=? returned_series bsz skip reqlim blocks) &&
+                  sub_multiset sres (sort_n (series_reservations bsz skip reqlim blocks)) &&
+                  sub_multiset cres (sort_n (chunk_reservations bsz skip reqlim blocks))
+       else negb (store_ok sl cl bsz skip reqlim blocks))
   end.
 
 (* prefix sums stay within the limit exactly while the calls succeed *)
@@ -168,11 +246,12 @@ Definition pred_ok (c : case) : bool :=
       Bool.eqb ok (within sl s_all && within cl (c_all * samples_per_chunk)) &&
       (if ok then fwd =? N.of_nat (length rs) else true)
     else true
-  | CStore sl cl skip blocks ok exhausted sres cres nseries nchunks tseries tchunks =>
+  | CStore sl cl bsz skip reqlim blocks ok exhausted sres cres nseries nchunks tseries tchunks =>
     if ok then
-      (* within the limits, and nothing missing *)
-      within sl nseries && within cl nchunks && (nseries =? tseries) && (nchunks =? tchunks)
+      (* within the configured limits and the request's own Limit; without a request Limit nothing is missing *)
+      within sl nseries && within cl nchunks && within reqlim nseries &&
+      (if reqlim =? 0 then (nseries =? tseries) && (nchunks =? tchunks) else true)
     else
-      (* refused with ResourceExhausted, and a limit really is exceeded by what the request needs *)
-      exhausted && negb (store_ok sl cl skip blocks)
+      (* refused with ResourceExhausted, and a limit really is exceeded by what the request reserves *)
+      exhausted && negb (store_ok sl cl bsz skip reqlim blocks)
   end.
